@@ -15,13 +15,13 @@ CONSTANTS Scenario, Locked
 
 MTNames == {"n", "m", "o", "u", "default"}
 MTDirs == <<"d1">>
-MTLoadable == [d \in {"d1"} |-> <<"d1/a">>]
+MTLoadable == [d \in {"d1"} |-> <<"d1/a", "d1/b">>]      \* d1/b exists in one scenario only
 MTIgnored == [d \in {"d1"} |-> {}]
 MTRoles == {"a", "b", "d1r", "d2r", "dflt", "old", "nobody"}
 MTOrder == <<"default", "m", "n", "o", "u">>      \* the harness writes files with sorted keys
 NoDep == [name |-> "", body |-> None]
 MTDefaults ==
-  CASE Scenario \in {"main_edit_dir_override", "dir_edit", "alias_eval", "dir_edit_linked", "merge_mode_dir_edit"} -> <<>>
+  CASE Scenario \in {"main_edit_dir_override", "dir_edit", "alias_eval", "dir_edit_linked", "merge_mode_dir_edit", "dir_two_files"} -> <<>>
     [] Scenario \in {"defaults_permissive", "empty_main_dir_edit", "defaults_override_removed"} -> << [name |-> "n", body |-> RolesB({"dflt"}), dep |-> NoDep, removal |-> 0] >>
     [] Scenario = "deprecated" -> << [name |-> "n", body |-> RolesB({"dflt"}), dep |-> [name |-> "o", body |-> RolesB({"old"})], removal |-> 0] >>
 
@@ -30,7 +30,7 @@ Gone == [exists |-> FALSE, mtime |-> 0, content |-> NoRules]
 C1(n, b) == [NoRules EXCEPT ![n] = b]
 C2(n1, b1, n2, b2) == [NoRules EXCEPT ![n1] = b1, ![n2] = b2]
 \* file system before and after the edit
-FsOld ==
+FsOldAB ==
   CASE Scenario = "main_edit_dir_override" -> [f \in {"main", "d1/a"} |-> IF f = "main" THEN File(C2("n", RolesB({"a"}), "m", RolesB({"a"})), 1) ELSE File(C1("n", RolesB({"d1r"})), 1)]
     [] Scenario = "dir_edit"               -> [f \in {"main", "d1/a"} |-> IF f = "main" THEN File(C2("n", RolesB({"a"}), "m", RolesB({"a"})), 1) ELSE File(C1("n", RolesB({"d1r"})), 1)]
     [] Scenario = "defaults_permissive"    -> [f \in {"main", "d1/a"} |-> IF f = "main" THEN File(C2("default", AnyB, "m", RolesB({"a"})), 1) ELSE Gone]
@@ -40,24 +40,30 @@ FsOld ==
     [] Scenario = "dir_edit_linked"        -> [f \in {"main", "d1/a"} |-> IF f = "main" THEN File(C1("u", RolesB({"a"})), 1) ELSE File(C2("n", Alias("m"), "m", RolesB({"a"})), 1)]
     \* an enforcer in merge mode (overwrite off)
     [] Scenario = "merge_mode_dir_edit"    -> [f \in {"main", "d1/a"} |-> IF f = "main" THEN File(C2("n", RolesB({"a"}), "m", RolesB({"a"})), 1) ELSE File(C1("n", RolesB({"d1r"})), 1)]
+    \* a directory with two files: the first one is re-applied unchanged while the second one was edited
+    [] Scenario = "dir_two_files"          -> [f \in {"main", "d1/a"} |-> IF f = "main" THEN File(C2("n", RolesB({"a"}), "m", RolesB({"a"})), 1) ELSE File(C1("n", RolesB({"d1r"})), 1)]
     \* the operator's override of a registered default is taken out of the main file (permissive default rule)
     [] Scenario = "defaults_override_removed" -> [f \in {"main", "d1/a"} |-> IF f = "main" THEN File(C2("default", AnyB, "n", RolesB({"a"})), 1) ELSE Gone]
     \* policy in code: the main file exists and defines nothing, the operator's overrides live in the directory
     [] Scenario = "empty_main_dir_edit"    -> [f \in {"main", "d1/a"} |-> IF f = "main" THEN File(NoRules, 1) ELSE File(C1("n", RolesB({"d1r"})), 1)]
-FsNew ==
-  CASE Scenario = "main_edit_dir_override" -> [FsOld EXCEPT !["main"] = File(C2("n", RolesB({"b"}), "m", RolesB({"a"})), 2)]
-    [] Scenario = "dir_edit"               -> [FsOld EXCEPT !["d1/a"] = File(C1("n", RolesB({"d2r"})), 2)]
-    [] Scenario = "defaults_permissive"    -> [FsOld EXCEPT !["main"] = File(C2("default", AnyB, "m", RolesB({"b"})), 2)]
-    [] Scenario = "deprecated"             -> [FsOld EXCEPT !["main"] = File(C1("o", RolesB({"b"})), 2)]
-    [] Scenario = "alias_eval"             -> [FsOld EXCEPT !["main"] = File(C2("n", RolesB({"b"}), "m", RolesB({"d2r"})), 2)]
-    [] Scenario = "dir_edit_linked"        -> [FsOld EXCEPT !["d1/a"] = File([NoRules EXCEPT !["m"] = RolesB({"b"}), !["n"] = Alias("o"), !["o"] = RolesB({"a"})], 2)]
-    [] Scenario = "merge_mode_dir_edit"    -> [FsOld EXCEPT !["d1/a"] = File(C1("n", RolesB({"d2r"})), 2)]
-    [] Scenario = "empty_main_dir_edit"    -> [FsOld EXCEPT !["d1/a"] = File(C1("n", RolesB({"d1r", "d2r"})), 2)]
-    [] Scenario = "defaults_override_removed" -> [FsOld EXCEPT !["main"] = File(C1("default", AnyB), 2)]
+FsNewAB ==
+  CASE Scenario = "main_edit_dir_override" -> [FsOldAB EXCEPT !["main"] = File(C2("n", RolesB({"b"}), "m", RolesB({"a"})), 2)]
+    [] Scenario = "dir_edit"               -> [FsOldAB EXCEPT !["d1/a"] = File(C1("n", RolesB({"d2r"})), 2)]
+    [] Scenario = "defaults_permissive"    -> [FsOldAB EXCEPT !["main"] = File(C2("default", AnyB, "m", RolesB({"b"})), 2)]
+    [] Scenario = "deprecated"             -> [FsOldAB EXCEPT !["main"] = File(C1("o", RolesB({"b"})), 2)]
+    [] Scenario = "alias_eval"             -> [FsOldAB EXCEPT !["main"] = File(C2("n", RolesB({"b"}), "m", RolesB({"d2r"})), 2)]
+    [] Scenario = "dir_edit_linked"        -> [FsOldAB EXCEPT !["d1/a"] = File([NoRules EXCEPT !["m"] = RolesB({"b"}), !["n"] = Alias("o"), !["o"] = RolesB({"a"})], 2)]
+    [] Scenario = "merge_mode_dir_edit"    -> [FsOldAB EXCEPT !["d1/a"] = File(C1("n", RolesB({"d2r"})), 2)]
+    [] Scenario = "dir_two_files"          -> FsOldAB
+    [] Scenario = "empty_main_dir_edit"    -> [FsOldAB EXCEPT !["d1/a"] = File(C1("n", RolesB({"d1r", "d2r"})), 2)]
+    [] Scenario = "defaults_override_removed" -> [FsOldAB EXCEPT !["main"] = File(C1("default", AnyB), 2)]
+TwoFiles == Scenario = "dir_two_files"
+FsOld == [f \in {"main", "d1/a", "d1/b"} |-> IF f = "d1/b" THEN (IF TwoFiles THEN File(C1("m", RolesB({"b"})), 1) ELSE Gone) ELSE FsOldAB[f]]
+FsNew == [f \in {"main", "d1/a", "d1/b"} |-> IF f = "d1/b" THEN (IF TwoFiles THEN File(C1("m", RolesB({"d2r"})), 2) ELSE Gone) ELSE FsNewAB[f]]
 DirSt == [d \in {"d1"} |-> [exists |-> TRUE, mtime |-> 1]]
 \* what is asked: the rule the edit concerns; a rule that lives only in the (unchanged part
 \* of the) main file; an undeclared name that resolves through the permissive default rule
-Query == CASE Scenario \in {"main_edit_dir_override", "dir_edit", "dir_edit_linked", "merge_mode_dir_edit"} -> {"n", "m"}
+Query == CASE Scenario \in {"main_edit_dir_override", "dir_edit", "dir_edit_linked", "merge_mode_dir_edit", "dir_two_files"} -> {"n", "m"}
            [] Scenario = "defaults_permissive" -> {"n", "u", "m"}
            [] OTHER -> {"n"}
 
